@@ -2,6 +2,7 @@ package main
 
 import (
 	"fmt"
+	"go/token"
 	"go/types"
 	"strings"
 
@@ -408,5 +409,51 @@ func runC15(r *Run) {
 				"the session id handed to the store is "+why+": saved as a map/storage key it is rewritten when the connection's buffers are reused — the owner loses the session and a later request can be given it")
 		}
 		r.atLeast("returns of getSessionID", n, 2)
+	})
+
+	r.rule("R8", "the absolute deadline survives a wipe: a session method that empties the data (where the deadline is kept) and lets the session live on stamps a new deadline when AbsoluteTimeout is configured (E1)", func() {
+		n := 0
+		r.P.AllFuncs(sessPkg, func(f *ssa.Function) {
+			if f.Signature.Recv() == nil || !strings.HasSuffix(f.Signature.Recv().Type().String(), "session.Session") {
+				return
+			}
+			if f.Name() == "Destroy" || f.Name() == "Release" || strings.HasPrefix(f.Name(), "release") {
+				return // the session does not live on
+			}
+			for _, w := range callsMatching(f, false, nameHasSuffix("session.data).Reset")) {
+				n++
+				cut := map[edge]bool{}
+				for _, br := range branchesInOne(f) {
+					if loadOfField(br.Info.Root, "session.Config.AbsoluteTimeout") {
+						if k, ok := constInt(br.Info.Const); ok && k == 0 {
+							// edges on which no absolute timeout is configured
+							switch br.Info.Op {
+							case token.GTR:
+								cut[edge{br.If.Block(), br.slotWhenRel(false)}] = true
+							case token.LEQ, token.EQL:
+								cut[edge{br.If.Block(), br.slotWhenRel(true)}] = true
+							case token.NEQ:
+								cut[edge{br.If.Block(), br.slotWhenRel(false)}] = true
+							}
+						}
+					}
+				}
+				okReturn := func(in ssa.Instruction) bool {
+					ret, ok := in.(*ssa.Return)
+					if !ok {
+						return false
+					}
+					if len(ret.Results) == 0 {
+						return true
+					}
+					return constIsNil(asConst(retOperand(ret, len(ret.Results)-1)))
+				}
+				isStamp := func(in ssa.Instruction) bool { return isCallTo(in, nameHasSuffix("session.Session).setAbsExpiration")) }
+				_, hit := reach(pointAfter(w.Instr), okReturn, cut, isStamp)
+				r.check(hit == nil, short(f.String())+":wipe-then-new-deadline", r.pos(w.Instr), "every successful path after the wipe sets a new absolute deadline when one is configured",
+					"the session data — which holds the absolute deadline — is wiped and the session lives on without a new deadline: saved afterwards it never expires absolutely, however long it is kept active")
+			}
+		})
+		r.atLeast("session methods that wipe the data", n, 1)
 	})
 }
